@@ -187,9 +187,18 @@ func sampleEngine(rng *Rand, long bool) EngineConfig {
 	c := EngineConfig{
 		Actors:      6 + rng.Intn(5),
 		MaxGas:      -1,
-		GenesisUnix: 946684800 + rng.Range(-365*86400, 365*86400),
+		GenesisUnix: 946684800 + rng.Range(-365*86400, 365*86400), // around the bubble's host "now"
 		Blocks:      30 + rng.Intn(50),
 		OpsPerBlock: 0.5 + 5*rng.Float(),
+	}
+	if rng.Bool(0.5) {
+		// chain time close to the host clock, at every scale from seconds to a month, on
+		// either side: durations measured against the host clock then straddle any threshold
+		d := int64(1) << uint(rng.Intn(22))
+		if rng.Bool(0.5) {
+			d = -d
+		}
+		c.GenesisUnix = 946684800 + d
 	}
 	if long {
 		c.Blocks = 80 + rng.Intn(220)
